@@ -20,6 +20,13 @@ Definition FILTERED : bool := true.
 
 Definition queued_of (l : link) : Z := x_queued (lx l).
 
+(** "not timed out" is judged against the CONFIGURED liveness window of the decision
+    ([cf_ctimeout], run-time tunable) as well as against the copy the link carries
+    ([c_ctimeout], what [is_timed_out] reads): a decision that routes by a stale per-link copy
+    onto a link that the configured window already declares timed out is a violation. *)
+Definition eligible_cfg (cfg : config) (now : Z) (l : link) : bool :=
+  eligible now l && negb (is_timed_out (la l) (cf_ctimeout cfg) now).
+
 (** clause numbers: 1 the unique copy went to an ineligible uplink (registering / timed out /
     stall-gated), 2 another uplink's queue grew although it is not a gated+connected probe
     target (or the packet is not data), 3 nothing routed but a queue grew, 4 shape *)
@@ -40,7 +47,7 @@ Definition mon_C04 (c : case) : N :=
   match r_routed c with
   | Some k =>
     match nthZ (r_post c) k with
-    | Some l => if negb (eligible (r_now c) l) then 1%N
+    | Some l => if negb (eligible_cfg (r_cfg c) (r_now c) l) then 1%N
                 else if others_ok (Some k) (p_data (r_pkt c)) (r_pre c) (r_post c) 0 then 0%N else 2%N
     | None => 4%N
     end
